@@ -32,10 +32,10 @@ pub(crate) fn scan_dimen<S: TexlangState>(
             match super::integer::parse_internal_number(input, first_token, command_ref)? {
                 InternalNumber::Integer(i) => (negative * i.signum(), i.abs(), Scaled::ZERO),
                 InternalNumber::Dimen(d) => {
-                    return Ok(d * negative);
+                    return attach_sign(input, first_token, d, negative);
                 }
                 InternalNumber::Glue(g) => {
-                    return Ok(g.width * negative);
+                    return attach_sign(input, first_token, g.width, negative);
                 }
             }
         }
@@ -51,6 +51,22 @@ pub(crate) fn scan_dimen<S: TexlangState>(
         fractional_part,
         glue_order,
     )? * negative)
+}
+
+/// The attach_sign part of TeX.2021.448 for internal dimensions:
+/// even a dimension read from a variable is checked to be in range.
+fn attach_sign<S: TexlangState>(
+    input: &mut vm::ExpandedStream<S>,
+    first_token: token::Token,
+    d: Scaled,
+    negative: i32,
+) -> txl::Result<common::Scaled> {
+    let d = if d.0.unsigned_abs() > Scaled::MAX_DIMEN.0.unsigned_abs() {
+        handle_overflow(input, first_token, false)?
+    } else {
+        d
+    };
+    Ok(d * negative)
 }
 
 /// Part of TeX.2021.448
